@@ -336,3 +336,21 @@ func FormatRow(cols []Column, r *Row, skip map[string]bool) string {
 	sort.Strings(parts)
 	return strings.Join(parts, " ")
 }
+
+// valInt64 reads an integer value of any of the integer representations.
+func valInt64(v Value) (int64, bool) {
+	switch x := v.(type) {
+	case int64:
+		return x, true
+	case *big.Int:
+		if x.IsInt64() {
+			return x.Int64(), true
+		}
+	case string:
+		var n int64
+		if _, err := fmt.Sscanf(x, "%d", &n); err == nil {
+			return n, true
+		}
+	}
+	return 0, false
+}
